@@ -148,7 +148,7 @@ theorem sliceG_get (durs : List Nat) (R : Nat) :
 
 /-- advertised durations are all positive -/
 def AdvPositive (durs : List Nat) (R : Nat) : Prop :=
-  ∀ m, 0 < advDur durs ((R : Int) - (durs.sum : Int)) m
+  ∀ m, m < durs.length → 0 < advDur durs ((R : Int) - (durs.sum : Int)) m
 
 /-- **the live timeline is a slice of the global sequence**: whatever the clock
 (`tcF` = timecode of `firstAvailableTime`), buffer depth and fuel, the DASH
@@ -160,16 +160,16 @@ theorem timeline_is_slice (durs : List Nat) (R ts tcF tsbd fuel : Nat) (hn : 0 <
   unfold timelineLive
   rw [getSegmentIndex_eq durs R tcF hn]
   simp only [Nat.add_sub_cancel]
-  rw [tlLoop_expand durs _ _ _ hpos, rawLoop_slice durs R _ hn]
+  rw [tlLoop_expand durs _ _ _ hpos _ _ (Nat.mod_lt _ hn), rawLoop_slice durs R _ hn]
   exact ⟨_, rfl⟩
 
 /-- same for the VOD timeline: it starts at position 0 -/
 theorem timeline_vod_is_slice (durs : List Nat) (R fuel : Nat) (hn : 0 < durs.length)
-    (hpos : ∀ m, 0 < advDur durs 0 m) (hR : R = durs.sum) :
+    (hpos : ∀ m, m < durs.length → 0 < advDur durs 0 m) (hR : R = durs.sum) :
     ∃ k, expand (timelineVod durs R fuel) = sliceG durs R 0 k := by
   unfold timelineVod
   have hz : ((R : Int) - (durs.sum : Int)) = 0 := by subst hR; omega
-  rw [tlLoop_expand durs 0 0 _ hpos]
+  rw [tlLoop_expand durs 0 0 _ hpos _ _ hn]
   have := rawLoop_slice durs R (R : Int) hn fuel 0 0
   rw [hz] at this
   simp only [Nat.zero_mod] at this
@@ -326,6 +326,8 @@ theorem C02_alignment_drift (refDur refTs ts L : Nat) (hTs : 0 < refTs) :
 /-- bbb-like video track: 240 Hz, 4-second segments, reference = itself -/
 example : StartsInsideLoop [960, 960, 960, 960] 3840 ∧ PositiveDurs [960, 960, 960, 960] := by
   unfold StartsInsideLoop PositiveDurs; decide
+
+example : AdvPositive [100, 90, 110, 95] 400 := by unfold AdvPositive; decide
 
 /-- an irregular audio track whose reference is a longer video track (positive drift) -/
 example : getSegmentIndex [100, 90, 110, 95] 400 (startG [100, 90, 110, 95] 400 7)
